@@ -43,6 +43,18 @@ func c02CheckStep(prefix string, r *v1beta1.Rollout, pre, post *v1beta1.CommonSt
 		verifrt.Assert(post.CurrentStepIndex == pre.NextStepIndex, prefix+".jump.landsOnRequestedStep")
 		verifrt.Assert(post.CurrentStepState == v1beta1.CanaryStepStateInit || post.CurrentStepState == v1beta1.CanaryStepStateTrafficRouting, prefix+".jump.state")
 		verifrt.Assert(len(calls.names) == 0, prefix+".jump.noSideEffects")
+		// the upgrade of the target step may be skipped only if it asks for exactly the replicas of the step that was
+		// left (whose pods are out already); otherwise the target step starts at its beginning and is gated like any other
+		if pre.CurrentStepIndex >= 1 && pre.CurrentStepIndex <= n && post.CurrentStepIndex >= 1 && post.CurrentStepIndex <= n {
+			left, target := steps[pre.CurrentStepIndex-1].Replicas, steps[post.CurrentStepIndex-1].Replicas
+			same := (left == nil) == (target == nil)
+			if left != nil && target != nil {
+				same = *left == *target
+			}
+			if !same {
+				verifrt.Assert(post.CurrentStepState == v1beta1.CanaryStepStateInit, prefix+".jump.differentReplicasStartAtTheBeginning")
+			}
+		}
 		return
 	}
 	cur := steps[pre.CurrentStepIndex-1]
